@@ -149,6 +149,13 @@ def strv_rules(ctx, prog):
         return [(failed(st, fn, n), fs("NULL")), (s, fs(t))]
     I = new_interp(prog, overrides={"str_dup": o_str_dup})
     I.widen = False
+    slots = {}
+
+    def alloc_hook(I_, fn, n, name, args, st):
+        if name == "calloc" and "case" in st.mon:
+            slots.setdefault(st.mon["case"], set()).add(show(args[0]))
+        return None
+    I.hooks_call.append(alloc_hook)
     p = {x["name"]: ("v", F.gdid(x["did"])) for x in F.params}
     A_, B_ = ("g", "array_a"), ("g", "array_b")
     cases = []
@@ -191,15 +198,10 @@ def strv_rules(ctx, prog):
     ctx.floor("C03.P2s", 4)
     stores = [e for e in res.events if e[0] == "store-global"]
     ctx.ob("C03.P2w", "strv_concat: inputs", "neither input array is written", not stores, None, nontrivial=True)
-    # block size: size counts one per element of a, one per element of b, plus one
-    cal = [n for n in F.calls("calloc")]
-    szvar = expr_str(strip(cal[0]["c"][1])) if cal else None
-    incs = [x for x in F.walk() if x["k"] == "UnaryOperator" and x["op"] == "++" and expr_str(strip(x["c"][0])) == szvar]
-    init = [x for x in F.walk() if x["k"] == "VarDecl" and x["name"] == szvar]
-    loops = [enclosing_loops(F, x) for x in incs]
+    # block size: one slot per entry of both arrays plus the terminator (the value calloc receives on the exactly unrolled runs)
+    bad = {str(c): sorted(v) for c, v in slots.items() if v != {show(fs(c[0] + c[1] + 1))}}
     ctx.ob("C03.P2z", "strv_concat: allocation", "the pointer array is allocated for one slot per entry of both arrays plus the terminator",
-           len(incs) == 2 and all(len(l) == 1 for l in loops) and init and const_of(prog, init[0]["c"][0]) == 1,
-           {"size_var": szvar, "increments": len(incs)})
+           not bad and len(slots) >= 4, {"cases": len(slots), "wrong_slot_counts": bad}, nontrivial=True)
 
 
 def fresh_cwd_rule(ctx, prog):
@@ -242,113 +244,119 @@ def fresh_cwd_rule(ctx, prog):
 
 
 def prepend_rules(ctx, prog):
-    """P4 buffer bounds in path_prepend_cwd, by linear forms over {path_size, cwd_size (capacity), strlen}"""
+    """P4b/P4w, evaluated through the code: path_prepend_cwd is abstractly interpreted with the path length fixed to a representative
+    value, getcwd() failing with ERANGE zero, one or two times before it succeeds with the LONGEST directory its capacity argument
+    admits (and with a one-character one), every allocation carrying its size.  Obligations: getcwd is never told a capacity above
+    the block it writes to, and every store / memcpy after it lands inside the block."""
     fresh_cwd_rule(ctx, prog)
+    from ..models import new_mem, with_errno
     F = prog.fn("path_prepend_cwd")
-    order = sorted((n for n in F.walk()), key=lambda n: n["id"])
-    env = {}
-    alloc = None
-    checks = []
-    INC = None
-    cap_at_success = None
-    for n in order:
-        k = n["k"]
-        if k == "VarDecl" and n.get("c"):
-            init = strip(n["c"][0])
-            if init["k"] == "CallExpr" and init.get("callee") in ("calloc", "malloc"):
-                a = init["c"][1:]
-                alloc = L.lin(a[0], env) if init["callee"] == "malloc" else mul(L.lin(a[0], env), L.lin(a[1], env))
-            elif init["k"] == "CallExpr" and init.get("callee") == "realloc":
-                new_alloc = L.lin(init["c"][2], env)
-                checks.append(("realloc", n["l"][0], new_alloc, dict(env)))
-                alloc = new_alloc
-            elif init["k"] == "CallExpr" and init.get("callee") == "strlen":
-                env[n["name"]] = {n["name"]: 1}
-            else:
-                f = L.lin(init, env)
-                if f is not None:
-                    env[n["name"]] = f
-        elif k == "CallExpr" and n.get("callee") == "getcwd":
-            cap = L.lin(n["c"][2], env)
-            checks.append(("getcwd", n["l"][0], cap, alloc))
-        elif k == "CompoundAssignOperator" and n["op"] == "+=":
-            v = expr_str(strip(n["c"][0]))
-            d = L.lin(n["c"][1], env)
-            if v in env and d is not None:
-                env[v] = L.add(env[v], d)
-        elif k == "BinaryOperator" and n["op"] == "=":
-            v = expr_str(strip(n["c"][0]))
-            r = strip(n["c"][1])
-            if r["k"] == "CallExpr" and r.get("callee") == "strlen" and v in env:
-                cap_at_success = env[v]
-                env[v] = {"strlen(cwd)": 1}
-    # 1. at every getcwd call (first and, symbolically, after each growth step): alloc >= capacity + path_size + 1
-    getc = [c for c in checks if c[0] == "getcwd"]
-    re = [c for c in checks if c[0] == "realloc"]
-    need_sym = "path_size"
-    ok1 = bool(getc) and getc[0][3] is not None and L.geq(getc[0][3], L.add(L.add(getc[0][2], {need_sym: 1}), {1: 1}))
-    ctx.ob("C03.P4b", "path_prepend_cwd: first getcwd", "the initial block is at least getcwd's capacity + strlen(path) + 1 bytes",
-           ok1, {"alloc": L.show(getc[0][3]) if getc else None, "capacity": L.show(getc[0][2]) if getc else None}, nontrivial=True)
-    # growth step: new capacity is the value of the capacity variable when the loop re-evaluates getcwd; new alloc from realloc
-    capvar = expr_str(strip([n for n in order if n["k"] == "CallExpr" and n.get("callee") == "getcwd"][0]["c"][2]))
-    ok2 = False
-    det = {}
-    if re:
-        new_alloc = re[0][2]
-        cap_after = None
-        # capacity variable at the end of the loop body = env after processing everything up to the end of the while body
-        loop = [n for n in order if n["k"] == "WhileStmt"]
-        if loop:
-            body_ids = {x["id"] for x in walk_nodes(loop[0])}
-            env2 = {capvar: {capvar: 1}, "path_size": {"path_size": 1}}
-            na = None
-            for n in order:
-                if n["id"] not in body_ids:
-                    continue
-                if n["k"] == "CompoundAssignOperator" and n["op"] == "+=" and expr_str(strip(n["c"][0])) == capvar:
-                    env2[capvar] = L.add(env2[capvar], L.lin(n["c"][1], env2))
-                if n["k"] == "VarDecl" and n.get("c") and strip(n["c"][0]).get("callee") == "realloc":
-                    na = L.lin(strip(n["c"][0])["c"][2], env2)
-            cap_after = env2[capvar]
-            det = {"alloc_after_growth": L.show(na), "capacity_after_growth": L.show(cap_after)}
-            ok2 = na is not None and L.geq(na, L.add(L.add(cap_after, {"path_size": 1}), {1: 1}))
-    ctx.ob("C03.P4b", "path_prepend_cwd: growth step", "after each growth step the block is again at least the new getcwd capacity + "
-           "strlen(path) + 1 bytes (the capacity is raised before the block is re-sized to it)", ok2, det, nontrivial=True)
-    # 2. writes after success: with s = strlen(cwd) <= capacity - 1, the largest index written is s + 1 + path_size <= capacity + path_size
-    writes = []
-    env3 = {"cwd_size": {"s": 1}, "path_size": {"path_size": 1}}
-    started = False
-    for n in order:
-        if n["k"] == "BinaryOperator" and n["op"] == "=" and strip(n["c"][1]).get("callee") == "strlen":
-            started = True
-            continue
-        if not started:
-            continue
-        if n["k"] == "BinaryOperator" and n["op"] == "=" and strip(n["c"][0])["k"] == "ArraySubscriptExpr":
-            idx = L.lin(strip(n["c"][0])["c"][1], env3)
-            writes.append(("store", idx))
-        elif n["k"] == "UnaryOperator" and n["op"] == "++" and expr_str(strip(n["c"][0])) == "cwd_size":
-            env3["cwd_size"] = L.add(env3["cwd_size"], {1: 1})
-        elif n["k"] == "CallExpr" and n.get("callee") == "memcpy":
-            d = strip(n["c"][1])
-            off = L.lin(d["c"][1], env3) if d["k"] == "BinaryOperator" else None
-            ln = L.lin(n["c"][3], env3)
-            if off is not None and ln is not None:
-                writes.append(("memcpy-end", L.add(L.add(off, ln), {1: -1})))
-    # bound: s <= C - 1  ==> every index <= C + path_size  (< alloc by part 1)
-    limit = {"C": 1, "path_size": 1}
-    okw = bool(writes)
-    for kind, idx in writes:
-        if idx is None:
-            okw = False
-            continue
-        sub = dict(idx)
-        coef = sub.pop("s", 0)
-        worst = L.add(sub, L.scale({"C": 1, 1: -1}, coef))
-        if not L.geq(limit, worst):
-            okw = False
-    ctx.ob("C03.P4w", "path_prepend_cwd: writes after getcwd", "the separator, the copied path and the terminator all land at offsets <= "
-           "capacity + strlen(path), i.e. inside the block", okw and len(writes) >= 3, {"writes": [(k, L.show(i)) for k, i in writes]}, nontrivial=True)
+    INC = prog.const("CWD_BUF_SIZE_INCREMENT") if "CWD_BUF_SIZE_INCREMENT" in prog.consts else 4096
+    P = 6
+    ERANGE = 34
+    problems = []
+    ncalls = {"getcwd": 0, "writes": 0}
+
+    def size_of(st, v):
+        t = one(v)
+        if isinstance(t, tuple) and t[0] == "addr" and t[1][0] == "i" and t[1][1][0] == "heap":
+            return st.res.get(("size", t[1][1][1])), t[1][2], t[1][1][1]
+        if isinstance(t, tuple) and t[0] == "mem":
+            return st.res.get(("size", t)), 0, t
+        return None, None, None
+
+    def m_alloc(I, fn, n, args, st):
+        s2, t = new_mem(I, fn, n, st)
+        if n.get("callee") == "calloc":
+            a, b_ = one(args[0]), one(args[1])
+            sz = a * b_ if isinstance(a, int) and isinstance(b_, int) else None
+        elif n.get("callee") == "realloc":
+            sz = one(args[1]) if isinstance(one(args[1]), int) else None
+            for a_ in args[0]:
+                if isinstance(a_, tuple) and a_[0] == "mem":
+                    s2.res[a_] = ("moved",)
+        else:
+            sz = one(args[0]) if isinstance(one(args[0]), int) else None
+        if sz is None:
+            problems.append("allocation of a size this analysis cannot evaluate at %s" % site_of(fn, n))
+        s2.res[("size", t)] = sz
+        return [(failed(st, fn, n), fs("NULL")), (s2, fs(t))]
+
+    def m_getcwd(I, fn, n, args, st):
+        ncalls["getcwd"] += 1
+        cap = one(args[1])
+        size, off, tok = size_of(st, args[0])
+        if not isinstance(cap, int) or size is None or off != 0:
+            problems.append("getcwd(%s, %s): block or capacity not evaluable" % (show(args[0])[:40], show(args[1])))
+        elif cap > size:
+            problems.append("getcwd is given capacity %d for a block of %d bytes (%s)" % (cap, size, site_of(fn, n)))
+        outs = [(with_errno(failed(st, fn, n), fs(I.abs_int(13))), fs("NULL"))]
+        if st.mon.get("eranges", 0) < 2:
+            s1 = with_errno(st, fs(I.abs_int(ERANGE)))
+            s1.mon["eranges"] = st.mon.get("eranges", 0) + 1
+            outs.append((s1, fs("NULL")))
+        if isinstance(cap, int):
+            for w in sorted({cap - 1, 1}):
+                s2 = st.copy()
+                s2.mon["cwdlen"] = w
+                s2.mon["cwd_filled"] = args[0]
+                outs.append((s2, args[0]))
+        return outs
+
+    def m_strlen(I, fn, n, args, st):
+        if args[0] == fs(("str", "<argv0>")):
+            return [(st, fs(P))]
+        if "cwdlen" in st.mon:
+            return [(st, fs(I.abs_int(st.mon["cwdlen"])))]
+        return [(st, I.nonneg())]
+
+    def m_memcpy(I, fn, n, args, st):
+        ncalls["writes"] += 1
+        size, off, tok = size_of(st, args[0])
+        ln = one(args[2])
+        if size is None or not isinstance(off, int) or not isinstance(ln, int):
+            problems.append("memcpy(%s, .., %s): destination or length not evaluable" % (show(args[0])[:60], show(args[2])))
+        elif off + ln > size:
+            problems.append("memcpy writes bytes %d..%d of a block of %d bytes (%s)" % (off, off + ln - 1, size, site_of(fn, n)))
+        return [(st, args[0])]
+
+    def store_hook(I, fn, node, cell, val, st):
+        if cell[0] == "i" and cell[1][0] == "heap":
+            ncalls["writes"] += 1
+            size = st.res.get(("size", cell[1][1]))
+            if not isinstance(cell[2], int) or size is None:
+                problems.append("store to element %s of a block: index not evaluable (%s)" % (cell[2], site_of(fn, node)))
+            elif not (0 <= cell[2] < size):
+                problems.append("store to byte %d of a block of %d bytes (%s)" % (cell[2], size, site_of(fn, node)))
+        return None
+    I = new_interp(prog, extra_models={"calloc": m_alloc, "malloc": m_alloc, "realloc": m_alloc, "getcwd": m_getcwd, "strlen": m_strlen,
+                                       "memcpy": m_memcpy})
+    I.widen = False
+    I.hooks_store.append(store_hook)
+    ks = {P, ERANGE, 13, 1, 2}
+    for k in range(1, 5):
+        for d in range(-2, P + 4):
+            ks.add(k * INC + d)
+            ks.add(k * INC + P + d)
+    I.K = sorted(set(I.K) | {x for x in ks if x >= 0})
+    I.Kset = set(I.K)
+    I.TOP_INT = frozenset(I.K) | {"NEG", "POS"}
+    st = State()
+    for p_ in F.params:
+        st.mem[("v", F.gdid(p_["did"]))] = fs(("str", "<argv0>"))
+    res = I.run(F, [st])
+    ctx.stats("E-ABS", I.stats)
+    oks = [s_ for s_, rv in res.exits if rv != fs("NULL")]
+    ctx.ob("C03.P4b", "path_prepend_cwd: buffer sizes", "with the program path %d bytes long and getcwd() succeeding at once or after one or two "
+           "growth steps - each time with the longest directory its capacity admits, and with a one-character one - getcwd is never told a "
+           "capacity above the block it fills, and the separator, the copied path and the terminator all land inside the block" % P,
+           not problems and ncalls["getcwd"] >= 3 and ncalls["writes"] >= 3 and len(oks) >= 3,
+           {"problems": sorted(set(problems))[:5], "getcwd_calls": ncalls["getcwd"], "writes_checked": ncalls["writes"], "successful_paths": len(oks)},
+           nontrivial=True)
+
+
+def one(v):
+    return next(iter(v)) if v is not None and len(v) == 1 else None
 
 
 def mul(a, b):
